@@ -50,15 +50,16 @@ def build(bins, timeout=1500):
     return {b: os.path.join(tdir, "debug", b) for b in bins}
 
 
-def run_bin(path, args, timeout=1800, env=None, cwd=None, ok_codes=(0,)):
+def run_bin(path, args, timeout=1800, env=None, cwd=None, ok_codes=(0,), discard_stdout=False):
     e = dict(os.environ)
     e.setdefault("RUST_BACKTRACE", "0")
     if env:
         e.update(env)
-    p = subprocess.run([path] + [str(a) for a in args], stdout=subprocess.PIPE, stderr=subprocess.PIPE,
+    p = subprocess.run([path] + [str(a) for a in args],
+                       stdout=subprocess.DEVNULL if discard_stdout else subprocess.PIPE, stderr=subprocess.PIPE,
                        text=True, timeout=timeout, env=e, cwd=cwd)
     if p.returncode not in ok_codes:
-        log(p.stdout[-3000:])
+        log((p.stdout or "")[-3000:])
         log(p.stderr[-3000:])
         raise ToolError("engine %s exited %d" % (os.path.basename(path), p.returncode))
     return p
